@@ -7,6 +7,7 @@ and loaded back through the model's load function where the round-trip clause
 applies."""
 import math
 
+from checks import c05
 from vlib import docs as D
 from vlib import harness as H
 from vlib import modelgen as G
@@ -89,6 +90,14 @@ def run_value(ctx, spec, t, v, indent, ensure_ascii, check_text, report_hook,
                     'loading the JSON text raised %s: %s; text=%r' % (
                         type(back).__name__, str(back)[-200:], text[:200]),
                     case)
+            elif not V.vsame(back, v) and any(
+                    c.get('sweeten') and ['remove_defaults'] in c['sweeten']
+                    for c in spec['classes']) and c05.json_nosign(
+                        V.vdigest(back)) == c05.json_nosign(V.vdigest(v)):
+                # default-value sweetening compares with ==: -0.0 is dropped
+                # for a default of 0.0 and comes back as 0.0 (the model's
+                # doing, as in C05: not judged)
+                ctx.count('signed_zero_dropped_as_default_(not_judged)')
             elif not V.vsame(back, v):
                 ctx.violation(
                     'C07 model roundtrip value-differs',
